@@ -394,7 +394,9 @@ class Builder:
         elif self.o.get("boundary") and rng.random() < self.o.get("boundary_p", 0.5):
             expires = rng.choice(["2026-09-26T12:00:01Z", "2026-09-26T12:00:00Z", "2026-09-26T11:59:59Z",
                                   "2024-02-29T00:00:00Z", "2028-02-29T23:59:59Z", "9999-12-31T23:59:59Z", "0001-01-01T00:00:00Z",
-                                  "2026-09-25T12:00:01Z", "2026-09-27T11:59:59Z", "2025-09-26T23:00:00Z", "2027-01-01T00:00:00Z"])
+                                  "2026-09-25T12:00:01Z", "2026-09-27T11:59:59Z", "2025-09-26T23:00:00Z", "2027-01-01T00:00:00Z",
+                                  # digits outside ASCII pass the layout's own format check (\\d on str) but are no ISO 8601 date
+                                  "\uff12\uff10\uff12\uff10-01-01T00:00:00Z", "2020-01-01T00:00:0\u0663Z"])
             self.tags.append("boundary:" + expires)
         elif self.o.get("near_expiry") and rng.random() < 0.7:
             # expiry within a day of now, either side: a clock read in another zone shows here
@@ -583,7 +585,8 @@ class Builder:
                 P2["extra"] = hashrec(rng)
         name = step
         if variant == "replayed_name":
-            name = rng.choice(other_steps) if other_steps else step + "x"
+            # another step's name, or a name that merely contains / is contained in this step's name
+            name = rng.choice((other_steps or [step + "x"]) + [step[:-1] or "s", step[1:] or "s", step + "x", step.upper() if step.upper() != step else step + "_"])
         link = Link(name=name, materials=M2, products=P2, command=["build"],
                     byproducts=rng.choice([{}, {"return-value": 0, "stdout": "é\n", "stderr": ""}]))
         is_dsse = self.dsse()
@@ -752,7 +755,8 @@ class Builder:
                 P2["extra"] = hashrec(rng)
         name = step
         if variant == "replayed_name":
-            name = rng.choice(other_steps) if other_steps else step + "x"
+            # another step's name, or a name that merely contains / is contained in this step's name
+            name = rng.choice((other_steps or [step + "x"]) + [step[:-1] or "s", step[1:] or "s", step + "x", step.upper() if step.upper() != step else step + "_"])
         link = Link(name=name, materials=M2, products=P2, command=["build"],
                     byproducts=rng.choice([{}, {"return-value": 0, "stdout": "é\n", "stderr": ""}]))
         if variant == "family_mismatch":
@@ -1397,6 +1401,8 @@ def model_request(scen, env, exec_table, now_s, outs=None):
 def norm_model_outcome(ans):
     """model answer -> the shape of run_impl outcomes (without 'log')"""
     if "load_err" in ans:
+        if ans.get("err") == "Unmodelled":
+            return {"err": "Unmodelled", "trace": []}      # the loader's verdict on this input is outside the model
         return {"load_err": True}
     out = {}
     if "ok" in ans:
